@@ -30,6 +30,8 @@ def suite(root):
     return rc == 0 and "FAIL" not in out, out
 
 def demo_cmd(demo):
+    if os.environ.get("DEMO_CMD"):
+        return os.environ["DEMO_CMD"] + " 2>&1 || exit 1"
     return "go test -vet=off -count=1 ./... 2>&1 || exit 1" if any(f.endswith("_test.go") for f in os.listdir(demo)) else "go run . "
 
 def run_checks(patch, ids, tier="quick"):
